@@ -6,6 +6,7 @@ package main
 
 import (
 	"encoding/json"
+	"flag"
 	"fmt"
 	"runtime"
 	"strconv"
@@ -15,6 +16,7 @@ import (
 
 	"github.com/EliCDavis/polyform/generator/parameter"
 	"github.com/EliCDavis/polyform/nodes"
+	"github.com/EliCDavis/vector/vector3"
 )
 
 type nodeDesc struct {
@@ -23,13 +25,16 @@ type nodeDesc struct {
 	Init int    `json:"init,omitempty"`
 	Fail bool   `json:"fail,omitempty"` // struct kinds: Process() returns an error when its hash is divisible by 3
 	Pan  bool   `json:"pan,omitempty"`  // struct kinds: Process() panics when its hash is divisible by 5
+	New  bool   `json:"new,omitempty"`  // struct kinds: built with nodes.NewStruct instead of a struct literal
+	Subs int    `json:"subs,omitempty"` // number of subscribers registered with AddSubscription (where the node has it)
 }
 type opDesc struct {
-	Op   string `json:"op"` // set | connect | disconnect | read
+	Op   string `json:"op"` // set | badset | connect | badconnect | disconnect | read
 	N    int    `json:"n"`
 	Port string `json:"port,omitempty"`
 	Src  int    `json:"src,omitempty"`
 	V    int    `json:"v,omitempty"`
+	Ref  int    `json:"ref,omitempty"` // connect: which reference of the source is wired (0 = Out(), 1 = the node itself, 2 = a StructOutput under another name)
 }
 type histDesc struct {
 	Shape string     `json:"shape"`
@@ -37,10 +42,21 @@ type histDesc struct {
 	Ops   []opDesc   `json:"ops"`
 }
 
-func isParam(k string) bool { return k == "pval" || k == "vnode" || isCompound(k) }
+func isParam(k string) bool { return k == "pval" || k == "vnode" || k == "pcli" || isCompound(k) }
 
-// parameter.Value[T] with T decoded element-wise by encoding/json: []int, map[string]int, struct{A, B int}
-func isCompound(k string) bool { return k == "pslice" || k == "pmap" || k == "pstruct" }
+// parameters whose value is not an int: parameter.Value[T] for T = []int, map[string]int, struct{A, B int}, string,
+// float64, bool, vector3.Float64, []vector3.Float64, and parameter.File ([]byte); consumers see them through an
+// int-valued adapter
+func isCompound(k string) bool {
+	switch k {
+	case "pslice", "pmap", "pstruct", "pstr", "pf64", "pbool", "pvec3", "pvarr", "pfile":
+		return true
+	}
+	return false
+}
+
+// kinds without a rejectable update message (ValueNode.Set takes a Go value, parameter.File accepts every message)
+func noBadMessage(k string) bool { return k == "vnode" || k == "pfile" }
 
 // what a consumer sees of a parameter that was given v: the int itself, or an order-sensitive hash of the
 // elements of the compound value built from v
@@ -50,8 +66,27 @@ func paramVal(kind string, v int) int {
 		return encInts([]int{v, v + 1, v % 7})
 	case "pmap", "pstruct":
 		return encInts([]int{v, v + 1})
+	case "pstr":
+		return encBytes([]byte(fmt.Sprintf("s%d", v)))
+	case "pfile":
+		return encBytes([]byte(fmt.Sprintf("f%d", v)))
+	case "pf64":
+		return 2*v + 1 // the float is v + 0.5
+	case "pbool":
+		return v % 2
+	case "pvec3":
+		return encInts([]int{v, v + 1, v + 2})
+	case "pvarr":
+		return encInts([]int{v, v + 1, v + 2, v + 3, 0, 0})
 	}
 	return v
+}
+func encBytes(b []byte) int {
+	xs := make([]int, len(b))
+	for i, c := range b {
+		xs[i] = int(c)
+	}
+	return encInts(xs)
 }
 func encInts(xs []int) int {
 	acc := 7
@@ -165,8 +200,8 @@ func (m *mirror) apply(o opDesc) bool {
 		m.val[n] = paramVal(m.desc[n].Kind, o.V)
 		m.raw[n] = o.V
 		return true
-	case "badset":
-		return false // a rejected update changes nothing
+	case "badset", "badconnect":
+		return false // a rejected update / a connection of the wrong type changes nothing
 	}
 	if isParam(m.desc[n].Kind) {
 		return false
@@ -224,60 +259,124 @@ type rowT struct {
 	execs int
 }
 
+// mkParam builds a parameter.Value[T] seen by the harness processors through the int adapter.  Update messages
+// are handed over in a buffer that is overwritten right after ApplyMessage returns (a transport reusing its
+// read buffer): the parameter must have decoded what it keeps.
+func mkParam[T any](i int, def T, enc func(T) int, msg, badmsg func(v int) string) *live {
+	p := &parameter.Value[T]{Name: fmt.Sprintf("p%d", i), DefaultValue: def}
+	val := func() int { return enc(p.Value()) }
+	send := func(s string) error {
+		buf := []byte(s)
+		_, err := p.ApplyMessage(buf)
+		for k := range buf {
+			buf[k] = '#'
+		}
+		return err
+	}
+	return &live{node: p, refs: []nodes.NodeOutputReference{adapter{node: p, val: val}}, value: val,
+		set: func(v int) error { return send(msg(v)) }, bad: func(v int) error { return send(badmsg(v)) }}
+}
+
+func vec(a, b, c int) vector3.Float64 { return vector3.New(float64(a), float64(b), float64(c)) }
+func encVecs(vs []vector3.Float64) int {
+	var xs []int
+	for _, v := range vs {
+		xs = append(xs, int(v.X()), int(v.Y()), int(v.Z()))
+	}
+	return encInts(xs)
+}
+
+// counts the alerts a parameter sends to its subscribers (the subscriber list is part of the update path)
+type alertCounter struct{ alerts, lastVersion int }
+
+func (a *alertCounter) Alert(version int, state nodes.NodeState) { a.alerts++; a.lastVersion = version }
+
 func buildLive(ns []nodeDesc) []*live {
 	ls := make([]*live, len(ns))
 	for i, n := range ns {
+		init := n.Init
 		switch n.Kind {
 		case "pval":
 			p := &parameter.Value[int]{Name: fmt.Sprintf("p%d", i), DefaultValue: n.Init}
-			ls[i] = &live{node: p, ref: p.Out(), value: p.Value, set: func(v int) error {
-				_, err := p.ApplyMessage([]byte(strconv.Itoa(v)))
+			send := func(s string) error {
+				buf := []byte(s)
+				_, err := p.ApplyMessage(buf)
+				for k := range buf {
+					buf[k] = '#'
+				}
 				return err
-			}, bad: func(v int) error {
-				_, err := p.ApplyMessage([]byte(`"oops"`))
-				return err
-			}}
+			}
+			ls[i] = &live{node: p, refs: []nodes.NodeOutputReference{p.Out(), p}, value: p.Value,
+				set: func(v int) error { return send(strconv.Itoa(v)) }, bad: func(v int) error { return send(`"oops"`) }}
+		case "pcli":
+			// the starting value comes from a parsed command line flag (Value(): applied message, else flag, else
+			// default); the default differs so that the order of the three sources is observable
+			p := &parameter.Value[int]{Name: fmt.Sprintf("p%d", i), DefaultValue: n.Init + 1000,
+				CLI: &parameter.CliConfig[int]{FlagName: fmt.Sprintf("p%d", i), Usage: "harness"}}
+			fs := flag.NewFlagSet("c11", flag.ContinueOnError)
+			p.InitializeForCLI(fs)
+			if err := fs.Parse([]string{fmt.Sprintf("-p%d=%d", i, n.Init)}); err != nil {
+				panic(err)
+			}
+			ls[i] = &live{node: p, refs: []nodes.NodeOutputReference{p.Out(), p}, value: p.Value,
+				set: func(v int) error { _, err := p.ApplyMessage([]byte(strconv.Itoa(v))); return err },
+				bad: func(v int) error { _, err := p.ApplyMessage([]byte(`{"v":1}`)); return err }}
 		case "pslice":
-			p := &parameter.Value[[]int]{Name: fmt.Sprintf("p%d", i), DefaultValue: []int{n.Init, n.Init + 1, n.Init % 7}}
-			ls[i] = &live{node: p, ref: adapter{node: p, val: func() int { return encInts(p.Value()) }},
-				value: func() int { return encInts(p.Value()) },
-				set: func(v int) error {
-					_, err := p.ApplyMessage([]byte(fmt.Sprintf("[%d,%d,%d]", v, v+1, v%7)))
-					return err
-				},
-				bad: func(v int) error {
-					_, err := p.ApplyMessage([]byte(fmt.Sprintf("[%d,%d,\"oops\"]", v+5, v+6)))
-					return err
-				}}
+			ls[i] = mkParam(i, []int{init, init + 1, init % 7}, encInts,
+				func(v int) string { return fmt.Sprintf("[%d,%d,%d]", v, v+1, v%7) },
+				func(v int) string { return fmt.Sprintf("[%d,%d,\"oops\"]", v+5, v+6) })
 		case "pmap":
-			p := &parameter.Value[map[string]int]{Name: fmt.Sprintf("p%d", i), DefaultValue: map[string]int{"a": n.Init, "b": n.Init + 1}}
-			enc := func() int { m := p.Value(); return encInts([]int{m["a"], m["b"]}) }
-			ls[i] = &live{node: p, ref: adapter{node: p, val: enc}, value: enc,
-				set: func(v int) error {
-					_, err := p.ApplyMessage([]byte(fmt.Sprintf(`{"a":%d,"b":%d}`, v, v+1)))
-					return err
-				},
-				bad: func(v int) error {
-					_, err := p.ApplyMessage([]byte(fmt.Sprintf(`{"a":%d,"b":"oops"}`, v+5)))
-					return err
-				}}
+			ls[i] = mkParam(i, map[string]int{"a": init, "b": init + 1}, func(m map[string]int) int { return encInts([]int{m["a"], m["b"]}) },
+				func(v int) string { return fmt.Sprintf(`{"a":%d,"b":%d}`, v, v+1) },
+				func(v int) string { return fmt.Sprintf(`{"a":%d,"b":"oops"}`, v+5) })
 		case "pstruct":
-			p := &parameter.Value[pairAB]{Name: fmt.Sprintf("p%d", i), DefaultValue: pairAB{A: n.Init, B: n.Init + 1}}
-			enc := func() int { x := p.Value(); return encInts([]int{x.A, x.B}) }
-			ls[i] = &live{node: p, ref: adapter{node: p, val: enc}, value: enc,
-				set: func(v int) error {
-					_, err := p.ApplyMessage([]byte(fmt.Sprintf(`{"A":%d,"B":%d}`, v, v+1)))
-					return err
+			ls[i] = mkParam(i, pairAB{A: init, B: init + 1}, func(x pairAB) int { return encInts([]int{x.A, x.B}) },
+				func(v int) string { return fmt.Sprintf(`{"A":%d,"B":%d}`, v, v+1) },
+				func(v int) string { return fmt.Sprintf(`{"A":%d,"B":"oops"}`, v+5) })
+		case "pstr":
+			ls[i] = mkParam(i, fmt.Sprintf("s%d", init), func(x string) int { return encBytes([]byte(x)) },
+				func(v int) string { return fmt.Sprintf(`"s%d"`, v) },
+				func(v int) string { return fmt.Sprintf(`"s%d`, v+5) })
+		case "pf64":
+			ls[i] = mkParam(i, float64(init)+0.5, func(x float64) int { return int(x * 2) },
+				func(v int) string { return fmt.Sprintf("%d.5", v) },
+				func(v int) string { return fmt.Sprintf(`"%d.5"`, v+5) })
+		case "pbool":
+			ls[i] = mkParam(i, init%2 == 1, func(x bool) int {
+				if x {
+					return 1
+				}
+				return 0
+			},
+				func(v int) string { return strconv.FormatBool(v%2 == 1) },
+				func(v int) string { return strconv.Itoa(1 - v%2) })
+		case "pvec3":
+			ls[i] = mkParam(i, vec(init, init+1, init+2), func(x vector3.Float64) int { return encVecs([]vector3.Float64{x}) },
+				func(v int) string { return fmt.Sprintf(`{"x":%d,"y":%d,"z":%d}`, v, v+1, v+2) },
+				func(v int) string { return fmt.Sprintf(`{"x":%d,"y":"oops"}`, v+5) })
+		case "pvarr":
+			ls[i] = mkParam(i, []vector3.Float64{vec(init, init+1, init+2), vec(init+3, 0, 0)}, encVecs,
+				func(v int) string {
+					return fmt.Sprintf(`[{"x":%d,"y":%d,"z":%d},{"x":%d,"y":0,"z":0}]`, v, v+1, v+2, v+3)
 				},
-				bad: func(v int) error {
-					_, err := p.ApplyMessage([]byte(fmt.Sprintf(`{"A":%d,"B":"oops"}`, v+5)))
-					return err
-				}}
+				func(v int) string { return fmt.Sprintf(`[{"x":%d,"y":%d,"z":%d},{"x":"oops"}]`, v+5, v+6, v+7) })
+		case "pfile":
+			// parameter.File keeps the message slice it is given, so every message is a fresh slice
+			p := &parameter.File{Name: fmt.Sprintf("p%d", i), DefaultValue: []byte(fmt.Sprintf("f%d", init))}
+			val := func() int { return encBytes(p.Value()) }
+			ls[i] = &live{node: p, refs: []nodes.NodeOutputReference{adapter{node: p, val: val}}, value: val,
+				set: func(v int) error { _, err := p.ApplyMessage([]byte(fmt.Sprintf("f%d", v))); return err }}
 		case "vnode":
 			p := nodes.Value(n.Init)
-			ls[i] = &live{node: p, ref: p.Out(), value: func() int { return p.Value() }, set: func(v int) error { p.Set(v); return nil }}
+			ls[i] = &live{node: p, refs: []nodes.NodeOutputReference{p.Out(), p}, value: func() int { return p.Value() }, set: func(v int) error { p.Set(v); return nil }}
 		default:
-			ls[i] = newStruct(n.Kind, n.Salt, n.Fail, n.Pan)
+			ls[i] = newStruct(n.Kind, n.Salt, n.Fail, n.Pan, n.New)
+		}
+		if sub, ok := ls[i].node.(nodes.Subscribable); ok {
+			for k := 0; k < n.Subs; k++ {
+				ls[i].alerts = append(ls[i].alerts, &alertCounter{})
+				sub.AddSubscription(ls[i].alerts[k])
+			}
 		}
 	}
 	return ls
@@ -305,6 +404,10 @@ func table(ls []*live) ([]rowT, string) {
 		cl, msg := guard(func() {
 			t[i].ver = l.node.Version()
 			t[i].stale = l.node.State() != nodes.Processed
+			// State() is defined through Outdated() (which is what Value() asks): they must agree
+			if l.outdated != nil && l.outdated() != t[i].stale && fail == "" {
+				fail = fmt.Sprintf("node %d: Outdated() = %v but State() == Stale is %v", i, !t[i].stale, t[i].stale) // (they differ)
+			}
 		})
 		if cl != "" && fail == "" {
 			fail = fmt.Sprintf("Version()/State() of node %d panicked: %s", i, msg)
@@ -320,7 +423,7 @@ func coqOp(o opDesc, kind string) string {
 	switch o.Op {
 	case "set":
 		return fmt.Sprintf("opS %d %d", o.N, paramVal(kind, o.V))
-	case "badset":
+	case "badset", "badconnect":
 		return fmt.Sprintf("opX %d", o.N)
 	case "connect":
 		return fmt.Sprintf("opC %d %s%%string %d", o.N, hx.CoqString(o.Port), o.Src)
@@ -411,7 +514,12 @@ func runHist(run *hx.Run, d histDesc) {
 				}
 				panic(err)
 			case "connect":
-				l.node.SetInput(o.Port, nodes.Output{NodeOutput: ls[o.Src].ref})
+				refs := ls[o.Src].refs
+				l.node.SetInput(o.Port, nodes.Output{NodeOutput: refs[o.Ref%len(refs)]})
+			case "badconnect":
+				// an output of another value type: reflect refuses the assignment, nothing may change
+				l.node.SetInput(o.Port, nodes.Output{NodeOutput: nodes.Value("text").Out()})
+				panic(fmt.Errorf("harness: a string output was accepted by int port %q of node %d", o.Port, o.N))
 			case "disconnect":
 				l.node.SetInput(o.Port, nodes.Output{})
 			default:
@@ -471,6 +579,31 @@ func runHist(run *hx.Run, d histDesc) {
 	run.Count(fmt.Sprintf("nodes:%02d-%02d", len(d.Nodes)/5*5, len(d.Nodes)/5*5+4))
 	if rejected > 0 {
 		run.Count("with-rejected-op")
+	}
+	seen := map[string]bool{}
+	for _, n := range d.Nodes {
+		if isParam(n.Kind) {
+			seen["param:"+n.Kind] = true
+			if n.Subs > 0 {
+				seen["with-subscribers"] = true
+			}
+		} else if n.New {
+			seen["with-NewStruct"] = true
+		}
+	}
+	for _, o := range kept {
+		if o.Op == "connect" && o.Ref > 0 {
+			seen[fmt.Sprintf("with-ref-%d", o.Ref)] = true
+		}
+		if o.Op == "badconnect" {
+			seen["with-wrong-type-connect"] = true
+		}
+		if o.Op == "set" && o.V == 0 {
+			seen["with-zero-value-set"] = true
+		}
+	}
+	for k := range seen {
+		run.Count(k)
 	}
 	failedRuns := 0
 	for _, l := range ls {
